@@ -181,10 +181,12 @@ func (g *engineGen) script(pfail float64, retries int) []Outcome {
 		sc = append(sc, Outcome{Resp: "nil", Err: "transient", DelayUs: d})
 	}
 	if fail {
+		// failures come in all shapes: with or without a (valid or wrong-typed) response alongside the error
+		resp := []string{"nil", "nil", "nil", "good", "good", "bad"}[g.r.IntN(6)]
 		if g.r.IntN(2) == 0 {
-			sc = append(sc, Outcome{Resp: "nil", Err: "permanent", DelayUs: d})
+			sc = append(sc, Outcome{Resp: resp, Err: "permanent", DelayUs: d})
 		} else {
-			sc = append(sc, Outcome{Resp: "nil", Err: "transient", DelayUs: d}) // repeats: exhausts the budget
+			sc = append(sc, Outcome{Resp: resp, Err: "transient", DelayUs: d}) // repeats: exhausts the budget
 		}
 	} else {
 		sc = append(sc, Outcome{Resp: "good", Err: "none", DelayUs: d})
